@@ -185,6 +185,17 @@ chk("C19", "model_checking",
     "hook reports the last rule string logged before do_space() returned; tokens paired by the independent lexer; cases with changed token streams are left to C02",
     "bounded-exhaustive program x spacing-option enumeration with hook-attributed per-pair oracle", "3/C19")
 
+chk("C20", "model_checking",
+    "Stateless bounded-exhaustive exploration on the real binary: 7 programs (functions with variable-definition blocks, structs/typedefs/enums, "
+    "switch/case, preprocessor blocks with a continued macro, comments incl. a multi-line one with blank lines inside, C++ namespace/class/try, "
+    "nested blocks) x blank-line injection at every line boundary (uniform 0..6; every 1-deviation; thorough: 2-deviations) and 25 file "
+    "start/end combinations x the full product nl_max 0..6 x eat_blanks_after_open_brace x eat_blanks_before_close_brace, the 32 "
+    "nl_start_of_file/nl_end_of_file x _min settings x nl_max {0,3}, and every blank-line count option (44) at every value <= nl_max in {2,4} "
+    "(thorough: pairs). Oracle (comments, literals, continued lines masked): no run of more than nl_max line breaks; start/end of file as "
+    "configured; no blank line next to a brace when eat_blanks_* is on.",
+    "count options recognised by their documentation text; configurations with a count option above nl_max are outside the proviso (status 78 is skipped)",
+    "bounded-exhaustive blank-line-layout x option-product enumeration with lexer-masked run-length oracle", "3/C20")
+
 
 def main():
     commits = subprocess.run(["git", "-C", "/repo", "log", "--format=%h %s"], stdout=subprocess.PIPE, text=True).stdout.splitlines()
